@@ -502,10 +502,15 @@ Section MarginalRoundTrip.
   Variable quantile : list T -> list T -> list T.
   Variable okp : T -> Prop.
 
-  Theorem marginal_roundtrip_unconditional (ds : list (dim T)) (sds : list (sdim T G P)) dimi d ps mc g :
+  Lemma draw_function_of_state_early (sds : list (sdim T G P)) n g g' rs rs' :
+    initial_state G seed_state g rs = initial_state G seed_state g' rs' ->
+    draw_full T zero G P seed_state sds n g rs = draw_full T zero G P seed_state sds n g' rs'.
+  Proof. intros H. unfold draw_full. now rewrite H. Qed.
+
+  Theorem marginal_roundtrip_unconditional (ds : list (dim T)) (sds : list (sdim T G P)) dimi d ps mc g rs :
     nth_error ds dimi = Some d -> cond d = None ->
     (forall p, okp p -> dcdf d (dicdf d p None) None = p) -> Forall okp ps ->
-    exists xs, marginal_icdf T zero G P seed_state quantile ds sds ps dimi mc g = Some xs /\
+    exists xs, marginal_icdf T zero G P seed_state quantile ds sds ps dimi mc g rs = Some xs /\
                xs = map (fun p => dicdf d p None) ps /\
                marginal_cdf T zero one inf mul of_int nquad ds (ArrF xs) dimi = Some ps.
   Proof.
@@ -513,7 +518,56 @@ Section MarginalRoundTrip.
     rewrite H1, H2. repeat split. cbn [as_vals]. f_equal. rewrite map_map.
     rewrite <- (map_id ps) at 2. apply map_ext_in. intros p Hp. apply Hinv. rewrite Forall_forall in Hps. now apply Hps.
   Qed.
+
+  (* several points in one call: the result has one entry per point, in the order given, and entry r is the value of
+     the single nquad call for point r (no dependence on the other points, on their order or on repetitions) *)
+  Theorem cdf_rowwise (ds : list (dim T)) (rows : list (list T)) :
+    length (cdf T zero one mul nquad ds rows) = length rows /\
+    (forall r x, nth_error rows r = Some x ->
+       nth_error (cdf T zero one mul nquad ds rows) r = Some (run_nq T zero one mul nquad ds (cdf_call T zero (length ds) x))) /\
+    (forall a b, cdf T zero one mul nquad ds (a ++ b) = cdf T zero one mul nquad ds a ++ cdf T zero one mul nquad ds b).
+  Proof.
+    unfold cdf. split; [apply map_length|]. split.
+    - intros r x H. now rewrite nth_error_map, H.
+    - intros a b. apply map_app.
+  Qed.
+  Theorem cdf_input_forms (ds : list (dim T)) :
+    (forall v, cdf_in T zero one mul of_int nquad ds (VecF v) = cdf_in T zero one mul of_int nquad ds (MatF [v])) /\
+    (forall v, cdf_in T zero one mul of_int nquad ds (VecI v) = cdf_in T zero one mul of_int nquad ds (VecF (map of_int v))) /\
+    (forall m, cdf_in T zero one mul of_int nquad ds (MatI m) = cdf_in T zero one mul of_int nquad ds (MatF (map (map of_int) m))).
+  Proof. repeat split; reflexivity. Qed.
+  Theorem marginal_pointwise (ds : list (dim T)) dimi (a b : list T) :
+    marginal_pdf T zero one inf mul of_int nquad ds (ArrF (a ++ b)) dimi =
+      match marginal_pdf T zero one inf mul of_int nquad ds (ArrF a) dimi, marginal_pdf T zero one inf mul of_int nquad ds (ArrF b) dimi with
+      | Some ya, Some yb => Some (ya ++ yb) | _, _ => None end /\
+    marginal_cdf T zero one inf mul of_int nquad ds (ArrF (a ++ b)) dimi =
+      match marginal_cdf T zero one inf mul of_int nquad ds (ArrF a) dimi, marginal_cdf T zero one inf mul of_int nquad ds (ArrF b) dimi with
+      | Some ya, Some yb => Some (ya ++ yb) | _, _ => None end.
+  Proof.
+    unfold marginal_pdf, marginal_cdf. destruct (nth_error ds dimi) as [d|]; [|split; reflexivity].
+    destruct (cond d); cbn [as_vals]; rewrite !map_app; split; reflexivity.
+  Qed.
+
+  (* conditional variable: the quantile of column dim of ONE Monte-Carlo sample of the whole model, drawn with the
+     caller's random_state -- hence reproducible by seed and independent of the global state for an int seed *)
+  Theorem marginal_icdf_conditional (ds : list (dim T)) (sds : list (sdim T G P)) dimi d j ps mc g rs :
+    nth_error ds dimi = Some d -> cond d = Some j ->
+    marginal_icdf T zero G P seed_state quantile ds sds ps dimi mc g rs =
+    Some (quantile (map (fun row => nth dimi row zero) (draw_sample T zero G P seed_state sds mc g rs)) ps).
+  Proof. intros H1 H2. unfold marginal_icdf. now rewrite H1, H2. Qed.
+
+  Theorem marginal_icdf_reproducible (ds : list (dim T)) (sds : list (sdim T G P)) dimi ps mc g g' rs rs' :
+    initial_state G seed_state g rs = initial_state G seed_state g' rs' ->
+    marginal_icdf T zero G P seed_state quantile ds sds ps dimi mc g rs =
+    marginal_icdf T zero G P seed_state quantile ds sds ps dimi mc g' rs'.
+  Proof.
+    intros H. unfold marginal_icdf, draw_sample.
+    now rewrite (draw_function_of_state_early sds mc g g' rs rs' H).
+  Qed.
 End MarginalRoundTrip.
+
+Lemma fmc_size_at_least ps pf n : fmc_size ps pf = Some n -> (100000 <= n)%Z.
+Proof. unfold fmc_size. destruct (truncZ _); intros H; inversion H. apply Z.le_max_r. Qed.
 
 (* the unrepaired container (np.empty_like of an integer array) loses the product: a witness *)
 Local Open Scope float_scope.
@@ -582,6 +636,24 @@ Section Draw.
     split; [rewrite nth_error_app2 by lia; now rewrite D1, Nat.sub_diag|].
     split; [rewrite nth_error_app2 by lia; now rewrite C1, Nat.sub_diag|].
     rewrite <- !app_assoc in H. exact H.
+  Qed.
+
+  (* the first k columns (and calls) of a sample are exactly what the first k dimensions alone produce from the same
+     initial state: later dimensions neither change them nor influence them *)
+  Theorem draw_prefix_independent (ds1 ds2 : list sdim) n g cols' tr' g' :
+    draw_cols (ds1 ++ ds2) n g [] [] = (cols', tr', g') ->
+    exists g1, draw_cols ds1 n g [] [] = (firstn (length ds1) cols', firstn (length ds1) tr', g1) /\
+               draw_cols ds2 n g1 (firstn (length ds1) cols') (firstn (length ds1) tr') = (cols', tr', g').
+  Proof.
+    intros H. rewrite draw_cols_app in H. destruct (draw_cols ds1 n g [] []) as [[c1 t1] g1] eqn:E1.
+    destruct (draw_cols_prefix _ _ _ _ _ _ _ _ E1) as [nc1 [nt1 [A1 [B1 [C1 D1]]]]]. cbn [app] in A1, B1. subst nc1 nt1.
+    destruct (draw_cols_prefix _ _ _ _ _ _ _ _ H) as [nc [nt [A [B _]]]].
+    exists g1. subst cols' tr'.
+    assert (Ec : firstn (length ds1) (c1 ++ nc) = c1).
+    { rewrite <- C1, firstn_app, firstn_all, Nat.sub_diag. cbn [firstn]. apply app_nil_r. }
+    assert (Et : firstn (length ds1) (t1 ++ nt) = t1).
+    { rewrite <- D1, firstn_app, firstn_all, Nat.sub_diag. cbn [firstn]. apply app_nil_r. }
+    rewrite Ec, Et. split; [reflexivity|exact H].
   Qed.
 
   (* oracle contract: rvs honours the requested size *)
